@@ -64,8 +64,13 @@ MonVal(M, p, v, r) ==
 
 \* send_{sync,async}_notification(p): r = "ok" | "clogged" | "noconn" | "err" | "nostream"
 \* ("nostream" = the handle has no sink for p; nothing was sent whatever the call returned)
-MonSend(M, p, r) ==
-  IF r = "ok" /\ ~M.ps[p].open THEN Fail(M, p, "notification sent outside an open stream") ELSE M
+\* The result of an asynchronous send is logged when the call completes (possibly after a Closed
+\* was pulled), so only the synchronous mode is judged here.  A clogged synchronous channel makes the
+\* handle force-close the connection: an open stream must then be reported closed.
+MonSend(M, p, m, r) ==
+  IF m = "s" /\ r = "ok" /\ ~M.ps[p].open THEN Fail(M, p, "notification sent outside an open stream")
+  ELSE IF m = "s" /\ r = "clogged" THEN [M EXCEPT !.ps[p].mustClose = @ \/ M.ps[p].open, !.ps[p].fault = TRUE, !.ps[p].want = FALSE]
+  ELSE M
 
 (* ---- events ------------------------------------------------------------ *)
 
@@ -95,9 +100,11 @@ MonEvent(M, p, k) ==
 MonEnv(M, p, k) ==
   LET s == M.ps[p] IN
   CASE k = "up" -> [M EXCEPT !.ps[p].conn = "up", !.ps[p].fault = FALSE]
-    [] k \in {"down", "cut"} ->
-         [M EXCEPT !.ps[p].conn = IF k = "down" THEN "down" ELSE s.conn, !.ps[p].fault = TRUE, !.ps[p].want = FALSE,
-                   !.ps[p].mustClose = s.mustClose \/ s.open]
+    \* "down" is reported by the node's own event loop, unordered with respect to the handle's
+    \* events (a later stream may already be open), so only a cut made by the environment itself
+    \* obliges the stream that is open at that moment to be reported closed
+    [] k = "down" -> [M EXCEPT !.ps[p].conn = "down", !.ps[p].fault = TRUE, !.ps[p].want = FALSE]
+    [] k = "cut" -> [M EXCEPT !.ps[p].fault = TRUE, !.ps[p].want = FALSE, !.ps[p].mustClose = s.mustClose \/ s.open]
     [] k = "stall" -> [M EXCEPT !.ps[p].fault = TRUE, !.ps[p].want = FALSE]
     [] OTHER -> M
 
